@@ -162,6 +162,19 @@ CLAIMS = {
         note="Assumes: ghost view of the stack list, popn/push/pop inlined, z3 str.replace_all for str.replace, model.table_name opaque. "
              "Open known finding F-C08-1 (not repaired: the pinned test fixture expects the defective text). Trusted: " + TB,
         technique="contract-based deductive verification of the per-node stack transitions + bounded render/parse-back stand-in (mixed)"),
+    "C09": dict(
+        category="other", design="DESIGN.md section 7 C09",
+        text="Mixed. Proved (contract-based, real model.py/xrefs.py, all integers/strings): node_to_ref resolves each coordinate to the "
+             "stored value if absolute and host + stored offset if relative, copies the '$' bits and keeps begin/end unswapped (cell nodes, "
+             "relative/absolute rectangle tracts with and without range_end); expand_ref's qualification is '' / 'T::' / 'S::T::' by the "
+             "property's cases; _format_cell_range is prefix + A1(start)[:A1(end)] over xl_rowcol_to_cell's C10 contract; lemma RESOLVE: for "
+             "any number of sheets/tables with sibling-unique names the chosen qualification resolves to the stored table only and no "
+             "shorter one does. Header labels, whole-row/column tracts, cross-table UUID lookup, quoting, and rename/relabel histories: "
+             "bounded stand-in with an independent resolver, so the level is not 'proof'.",
+        note="Assumes: protobuf nodes as records with HasField; CellRange(...) records its keyword arguments; naming functions uninterpreted "
+             "in the lemmas. Trusted: " + TB,
+        technique="contract-based deductive verification (path-complete symbolic execution of node_to_ref/expand_ref/_format_cell_range + "
+                  "quantified resolver lemmas) + bounded print/resolve-back stand-in (mixed)"),
 }
 NA_REASON = "check not built yet (build in progress; see DESIGN.md section 7 for the plan)"
 
